@@ -136,9 +136,9 @@ class ValueOrListConverter(UnionConverter):
     def into_data(self, val: t.Any) -> DataType:
         if not isinstance(val, ValueOrList):
             return into_data(val)
-        return t.cast(ValueOrList[t.Any], val).map(
-            lambda v: into_data(v, self.ty)
-        )._inner
+        # serialise the members with the member converter itself: going back through `into_data(v, self.ty)`
+        # fails for types whose converter has no `into_data` of its own (scalars, `t.Any`)
+        return t.cast(ValueOrList[t.Any], val).map(self.converters[0].into_data)._inner
 
 
 class YAMLDocList(list):  # type: ignore
